@@ -883,24 +883,32 @@ def correspondence(ctx) -> CorrResult:
 def nonlinear_round_trip(rng) -> tuple[list[Failure], int]:
     """stacked_time on a nonlinear model of C06: simulate with one shock, exogenize the simulated variable and endogenize
     the shock at the same date (unanticipated, or anticipated in the first period), recover shock and path"""
-    import irispie as ir
     from harness import C06
     spec = C06.gen_model(rng, rng.choice(["nonlinear", "nonlinear", "linear"]))
+    cand = [i for i in range(spec["n"]) if spec["eqs"][i]["shock"]]
+    i = rng.choice(cand)
+    T = rng.randint(2, 7)
+    ant = rng.random() < 0.4
+    inp = {"nonlinear": True, "spec": spec, "shock": ("ant_" if ant else "") + f"e{i}", "variable": f"x{i}",
+           "offset": 0 if ant else rng.randrange(T), "value": round(rng.uniform(0.05, 0.3) * rng.choice([-1, 1]), 3),
+           "start": 8000 + rng.randint(0, 40), "nper": T}
+    return run_nonlinear(inp)
+
+
+def run_nonlinear(inp) -> tuple[list[Failure], int]:
+    import irispie as ir
+    from harness import C06
+    spec = inp["spec"]
+    spec["eqs"] = [dict(e, terms=[dict(t, f=[tuple(x) for x in t["f"]]) for t in e["terms"]],
+                        sq=[tuple(x) for x in e["sq"]]) for e in spec["eqs"]]
     m = C06.build_model(spec)
     if m is None:
         return [], 0
     n = spec["n"]
-    cand = [i for i in range(n) if spec["eqs"][i]["shock"]]
-    i = rng.choice(cand)
-    T = rng.randint(2, 7)
-    ant = rng.random() < 0.4
-    t = 0 if ant else rng.randrange(T)
-    val = round(rng.uniform(0.05, 0.3) * rng.choice([-1, 1]), 3)
-    s0 = 8000 + rng.randint(0, 40)
+    sh, var, t, val, s0, T = inp["shock"], inp["variable"], inp["offset"], inp["value"], inp["start"], inp["nper"]
+    ant = sh.startswith("ant_")
     span = ir.Span(C06._qq(s0), C06._qq(s0 + T - 1))
-    sh = ("ant_" if ant else "") + f"e{i}"
-    inp = {"model": C06.model_source(spec), "spec": spec, "shock": sh, "variable": f"x{i}", "offset": t, "value": val,
-           "start": s0, "nper": T}
+    inp = dict(inp, model=C06.model_source(spec))
     kw = dict(method="stacked_time", when_fails="silent", return_info=True, solver_settings={"step_tolerance": 1e10})
     try:
         with contextlib.redirect_stdout(io.StringIO()):
@@ -910,12 +918,12 @@ def nonlinear_round_trip(rng) -> tuple[list[Failure], int]:
             if not all(st.is_success for st in info1["exit_status"]):
                 return [], 0
             db2 = ir.Databox.steady(m, span, deviation=False)
-            db2[f"x{i}"][C06._qq(s0 + t)] = C06._val(drive[f"x{i}"], s0 + t)
+            db2[var][C06._qq(s0 + t)] = C06._val(drive[var], s0 + t)
             plan = ir.SimulationPlan(m, span)
             if ant:
-                plan.swap_anticipated(C06._qq(s0 + t), (f"x{i}", sh))
+                plan.swap_anticipated(C06._qq(s0 + t), (var, sh))
             else:
-                plan.swap_unanticipated(C06._qq(s0 + t), (f"x{i}", sh))
+                plan.swap_unanticipated(C06._qq(s0 + t), (var, sh))
             out, info2 = m.simulate(db2, span, plan=plan, **kw)
     except Exception as e:  # noqa
         return [Failure("simulate:raises:stacked_time:nonlinear", f"stacked_time swap raises {type(e).__name__}: {e}"[:300], inp)], 1
@@ -925,6 +933,9 @@ def nonlinear_round_trip(rng) -> tuple[list[Failure], int]:
     a = C06._val(out[sh], s0 + t)
     if not abs(a - val) <= 1e-6 * (1 + abs(val)):
         bad.append({"shock": sh, "recovered": a, "driving": val})
+    a, b = C06._val(out[var], s0 + t), C06._val(db2[var], s0 + t)
+    if not abs(a - b) <= 1e-9 * (1 + abs(b)):
+        bad.append({"exogenized": var, "observed": a, "input": b})
     for j in range(n):
         for k in range(T):
             a, b = C06._val(out[f"x{j}"], s0 + k), C06._val(drive[f"x{j}"], s0 + k)
@@ -941,7 +952,9 @@ def nonlinear_round_trip(rng) -> tuple[list[Failure], int]:
                         bad.append({"shock": nm, "offset": k, "observed": a, "input": b})
     if bad:
         return [Failure("swap-inverts:stacked_time:nonlinear", "nonlinear stacked-time swap does not recover the shock / "
-                        "the path, or changes another shock", inp, bad[:5], "recovered within 1e-6*(1+|x|)")], 1
+                        "the path, misses the exogenized value, or changes another shock", inp, bad[:5],
+                        "recovered within 1e-6*(1+|x|)",
+                        "harness.C07.run_nonlinear(input)  # plan.swap_*(date, (variable, shock)); simulate(method='stacked_time')")], 1
     return [], 1
 
 
@@ -999,6 +1012,9 @@ def falsify(ctx, hints):
 
 def replay(ctx, failure: dict):
     inp = failure.get("input") or {}
+    if inp.get("nonlinear"):
+        fs, _ = run_nonlinear({k: v for k, v in inp.items() if k != "model"})
+        return fs[0] if fs else None
     if "case" in inp and "spec" in inp:
         case = dict(inp["case"], spec=inp["spec"])
         got = get_model(case["spec"])
